@@ -21,6 +21,7 @@ def check(chk, thorough=False):
     chk.run('C03.i', 'R-GUARD', 'the structure check of a security block judges each target by itself: an unmodified block with several targets is not refused (= C12.g)', lambda ob: __import__('sa.props.c12', fromlist=['c12g']).c12g(tree, ob), floor=2)
     chk.run('C03.j', 'R-PAIR', 'each certificate of a PEM chain file is parsed from its own lines: the line accumulator is emptied after every certificate (else every entry of the chain is the first certificate again)', lambda ob: c03j(tree, ob), floor=1)
     chk.run('C03.k', 'R-FRESH', 'each target of a policy gets its own operation, so the block lists every target once and every target is covered by its own MAC (= C16.f)', lambda ob: __import__('sa.props.c16', fromlist=['c16f']).c16f(tree, ob), floor=2)
+    chk.run('C03.l', 'R-SCHEMA', 'a null in the place of an endpoint ID is refused on decode (the AAD re-encodes the primary block and the security source: null would re-encode as dtn:none and still verify) (= C08.e clause)', lambda ob: __import__('sa.props.c08', fromlist=['eid_null_refused']).eid_null_refused(tree, ob), floor=1)
     chk.run('C03.d', 'R-ORDER', 'a verification key comes only from the symmetric store by kid, or from a chain that was validated and whose node id matched; every other path raises', lambda ob: c03d(tree, ob), floor=4)
 
 
